@@ -5,6 +5,7 @@
    together, so one ordered list of entries (dict insertion order of rxgs)
    represents them.  Sources are N.  Memo text is its UTF-8 bytes. *)
 From Hio Require Import Base.Prelude Model.B64 Model.MemoGram.
+From Hio Require Model.MemoTx.
 Local Open Scope N_scope.
 
 Record entry := { e_mid : bytes;
@@ -298,7 +299,11 @@ Record sent := { s_params : rparams;            (* r_size = the effective .size 
                  s_hist : list cfgop;           (* setter calls made before rend *)
                  s_text : bytes; s_grams : res (list bytes) }.  (* observed rend output *)
 
-Record case20 := { k_sign : stable; k_sent : list sent; k_rx : case }.
+(* k_tx: when the grams travel through the sender's transmit queue under a scripted transport (Model/MemoTx.v:
+   gramit of the rend output per destination, service calls, realized send results); k_more_rx: the receivers of
+   the other destinations *)
+Record case20 := { k_sign : stable; k_sent : list sent; k_rx : case;
+                   k_more_rx : list case; k_tx : option MemoTx.case }.
 
 Definition check_sent (t : stable) (s : sent) : bool :=
   res_eqb (list_eqb bytes_eqb) (rend (slookup t) (s_params s) (s_text s)) (s_grams s)
@@ -312,7 +317,9 @@ Definition check_sent (t : stable) (s : sent) : bool :=
      end.
 
 Definition check_case20 (c : case20) : bool :=
-  forallb (check_sent (k_sign c)) (k_sent c) && check_case (k_rx c).
+  forallb (check_sent (k_sign c)) (k_sent c) && check_case (k_rx c)
+  && forallb check_case (k_more_rx c)
+  && match k_tx c with Some t => MemoTx.check_case t | None => true end.
 
 Definition case20_branches (c : case20) : list nat :=
   map (fun s => match s_grams s with
@@ -321,5 +328,6 @@ Definition case20_branches (c : case20) : list nat :=
                 end) (k_sent c)
   ++ map (fun s => match s_grams s with
                    | Ok [_] => 19 | Ok (_ :: _ :: _) => 20 | _ => 21 end) (k_sent c)
-  ++ case_branches (k_rx c).
-Definition n_branches20 : nat := 22.
+  ++ case_branches (k_rx c) ++ flat_map case_branches (k_more_rx c)
+  ++ match k_tx c with Some t => map (fun b => 22 + b) (MemoTx.case_branches t) | None => [] end.
+Definition n_branches20 : nat := 31.
